@@ -22,6 +22,14 @@ ExactLast(v, keys) == IF Hits(v, keys) = {} THEN NA ELSE MaxOf(Hits(v, keys))
 \* approximate matching on ascending integer keys: last row whose key is not greater than v
 ApproxRow(v, keys) == IF ~Ascending(keys) THEN OOS
                       ELSE LET S == {i \in 1..Len(keys) : keys[i] <= v} IN IF S = {} THEN NA ELSE MaxOf(S)
+\* ---- numeric key columns with blank cells: the key value 0 marks a blank cell of the key range; a blank is never a key ----
+IsKeyB(k) == k # 0
+AscendingB(keys) == \A i \in 1..Len(keys), j \in 1..Len(keys) : (i < j /\ IsKeyB(keys[i]) /\ IsKeyB(keys[j])) => keys[i] <= keys[j]
+HitsB(v, keys) == {i \in 1..Len(keys) : IsKeyB(keys[i]) /\ keys[i] = v}
+ExactFirstB(v, keys) == IF HitsB(v, keys) = {} THEN NA ELSE MinOf(HitsB(v, keys))
+ExactLastB(v, keys) == IF HitsB(v, keys) = {} THEN NA ELSE MaxOf(HitsB(v, keys))
+ApproxRowB(v, keys) == IF ~AscendingB(keys) THEN OOS
+                       ELSE LET S == {i \in 1..Len(keys) : IsKeyB(keys[i]) /\ keys[i] <= v} IN IF S = {} THEN NA ELSE MaxOf(S)
 \* table value of row i, column c: position dependent, so that the partner is identifiable
 Cell(i, c) == 100 * i + c
 ValueAt(row, c) == IF row < 0 THEN row ELSE Cell(row, c)
